@@ -11,7 +11,7 @@ from simkit.kernel import HarnessError
 
 ID = "C13"
 LEVEL = "exploration"
-RUNS = {"quick": 9000, "thorough": 300000}
+RUNS = {"quick": 45000, "thorough": 900000}
 RULE = ("(fidelity) real writer with swarm-chosen options -> get_options_and_frames and the reference decoder must "
         "report exactly those options, version 2 iff namespace declarations; (pairs) all 4x8 physical/logical pairs, "
         "name tables <8, tables >4096, versions >2: writer construction and reader (headers sent by the reference "
